@@ -737,6 +737,30 @@ func c20Placements(t *core.T, kind string, maxPerPoint int) {
 	t.Sample(map[string]interface{}{"scenario": kind, "point_counts": counts, "placements_run": len(plan), "exhaustive": exhaustive})
 }
 
+// c20Few runs a scenario with a short, fixed list of placements (scenarios whose set-up is too
+// expensive for the full enumeration in the quick tier).
+func c20Few(t *core.T, kind string, plan []c20Placement) {
+	seed := t.R.Uint64()
+	for i, p := range plan {
+		if t.Failed() {
+			break
+		}
+		t.Eval(1)
+		_, verdict, wit := c20Run(t, kind, seed, filepath.Join(t.Dir, fmt.Sprintf("f%d", i)), p)
+		if !c20Report(t, kind, p, verdict, wit) {
+			continue
+		}
+		if wit["placement_reached"] == true {
+			t.Nontrivial(kind + "|" + p.String())
+			t.Count("placements_"+p.variant, 1)
+			t.Observe("points_parked", p.point)
+		} else {
+			t.Count("placement_not_reached", 1)
+		}
+	}
+	t.Sample(map[string]interface{}{"scenario": kind, "placements_run": len(plan), "exhaustive": false})
+}
+
 // c20Stress: Stop at a PRNG-chosen moment with random delays at all points and few processors.
 func c20Stress(t *core.T, n int) {
 	for i := 0; i < n && !t.Failed(); i++ {
@@ -785,6 +809,10 @@ func init() {
 				c20Placements(t, "remove-retry", max)
 			case quick && t.Index == 7:
 				c20Placements(t, "crowd", 4)
+			case quick && t.Index == 9:
+				// a removal that needs several rounds (> 20 000 credits): progress between the rounds and
+				// a stop between them (the full enumeration of this scenario is in the thorough tier)
+				c20Few(t, "bigremove", []c20Placement{{point: "remove.round", k: 2, variant: "H"}, {point: "remove.round", k: 2, variant: "A"}, {point: "handle.suspended", k: 3, variant: "H"}})
 			case !quick && t.Index == 13:
 				c20Placements(t, "crowd", max)
 			case !quick && t.Index == 7:
